@@ -246,6 +246,31 @@ static Served serve(Node &N, size_t payload_avail) {
     return S;
 }
 
+// Another instance of the protocol lived in this process before the scenario starts (plan field "prelude": [transport, kind]): on a line of its
+// own it received line noise - a broken SLIP escape, half a frame, a length prefix without its payload, a frame that is too long - and answered
+// what it answered. Nothing of that may be felt by the instances of the scenario: they share no object with it.
+static void earlier_instance(Ctx &c, const Json &plan) {
+    if (!plan.has("prelude")) return;
+    const Json &pj = plan.get("prelude");
+    const bool serial = (pj.ati(0, 0) & 1) != 0; const int kind = (int)(((pj.ati(1, 0) % 7) + 7) % 7);
+    Wire in, out;
+    Node X(c, &in, &out, serial, 16, sizeof(RPFrame) + 48, false, (pj.ati(0, 0) & 2) != 0, false);
+    Frame f; f.type = T_WREQ; f.options = (serial ? OPT_HDCRC | OPT_PLCRC : 0) | OPT_WS16; f.seq = 7; f.addr = 0x20; f.bsize = 2; f.payload = {0x12, 0xc0, 0xdb, 0x34};
+    const Bytes raw = encode(f), wire = frame_on(serial, raw);
+    switch (kind) {
+    case 0: in.data = {0x01, 0xdb, 0x00, 0x55, 0x66}; break;                                   // an escape octet followed by something that is no escape code, no END after it
+    case 1: in.data = {0xdb}; break;                                                           // the line ends inside an escape pair
+    case 2: in.data.assign(wire.begin(), wire.begin() + (long)(wire.size() / 2)); break;        // half a frame
+    case 3: in.data = {0x8a, 0x01, 0x01, 0x02}; break;                                         // (TCP) a prefix announcing 138 octets, three of them there
+    case 4: in.data = wire; in.data.insert(in.data.end(), {0xdb, 0xdb, 0xc0}); break;           // a good frame, then ESC ESC END
+    case 5: { Frame g = f; g.payload.assign(200, 0xdb); g.bsize = 100; in.data = frame_on(serial, encode(g)); in.data.pop_back(); } break;   // too long for the block, and cut
+    default: in.data = {0xc0, 0xdb, 0xdd, 0xdb}; break;
+    }
+    COUNT("probe.earlier_instance_received_line_noise");
+    for (int i = 0; i < 2; ++i) { Served S = serve(X, 4); (void)S; if (!S.recv_returned || !S.proc_returned) { c.fail("noprogress.prelude", "the instance that lived earlier did not return from receiving line noise"); return; } }
+    g_be = nullptr;
+}
+
 // register-table result class -> response code, as the protocol document describes the codes
 static int ref_regaccess_code(int reg_code) {
     switch (reg_code) {
@@ -315,11 +340,11 @@ struct RegpHarness : Harness {
     std::vector<std::string> probes(const std::string &p) const override {
         std::vector<std::string> v;
         if (p == "C06") { for (int k = 0; k < 12; ++k) { v.push_back("verdict_read_" + std::to_string(k)); v.push_back("verdict_write_" + std::to_string(k)); }
-            for (const char *s : {"instance_without_memory_attached", "read_of_64k_octets_or_more", "pipelined_3_or_more", "sequence_wrap", "word_size_mismatch", "response_ignored", "meta_ignored", "mem8", "mem16", "serial", "tcp", "zero_block_size", "request_from_real_client", "register_table_verdict_mapped", "reception_failure_inside_session", "block_recycled_with_stale_content", "reply_received_and_ignored_by_client", "read_at_or_near_capacity"}) v.push_back(s); }
+            for (const char *s : {"earlier_instance_received_line_noise", "instance_without_memory_attached", "read_of_64k_octets_or_more", "pipelined_3_or_more", "sequence_wrap", "word_size_mismatch", "response_ignored", "meta_ignored", "mem8", "mem16", "serial", "tcp", "zero_block_size", "request_from_real_client", "register_table_verdict_mapped", "reception_failure_inside_session", "block_recycled_with_stale_content", "reply_received_and_ignored_by_client", "read_at_or_near_capacity"}) v.push_back(s); }
         else if (p == "C07") for (const char *s : {"frame_of_64k_octets_or_more", "damage_beyond_64k_words", "idle_turn_after_a_frame", "reply_could_not_be_sent", "flip1", "flip2", "burst", "truncate", "extend", "header_word_flip", "class_header_encoding", "class_header_crc", "class_payload_size", "class_payload_crc", "raw_accept", "raw_tcp", "option_plcrc_without_hdcrc", "odd_payload_ws16", "payload_fault_answered_with_error_response", "classified_from_fallback_buffer"}) v.push_back(s);
-        else if (p == "C08") { for (const char *s : {"instance_without_memory_attached", "payload_of_64k_octets_or_more", "emitter_sink_failed", "channel_attached_again_mid_session", "req_read8", "req_read16", "req_write8", "req_write16", "resp_ack_payload", "resp_ack_empty", "resp_meta", "payload_with_slip_control_octets", "varint_prefix_2_octets", "sequence_wrap", "roundtrip_accepted"}) v.push_back(s);
+        else if (p == "C08") { for (const char *s : {"earlier_instance_received_line_noise", "instance_without_memory_attached", "payload_of_64k_octets_or_more", "emitter_sink_failed", "channel_attached_again_mid_session", "req_read8", "req_read16", "req_write8", "req_write16", "resp_ack_payload", "resp_ack_empty", "resp_meta", "payload_with_slip_control_octets", "varint_prefix_2_octets", "sequence_wrap", "roundtrip_accepted"}) v.push_back(s);
             for (int k = 1; k < 12; ++k) v.push_back("resp_code_" + std::to_string(k)); }
-        else for (const char *s : {"frame_released_through_block_free", "frame_of_64k_octets_or_more", "reply_could_not_be_sent", "malloc_failed_underneath_ufw_malloc", "alloc_failure_with_parsable_header", "alloc_failure_without_parsable_header", "empty_frame", "short_frame", "frame_len_room_minus_1", "frame_len_room", "frame_len_room_plus_1", "rx_overflow", "read_at_limit_minus_1", "read_at_limit", "read_at_limit_plus_1", "tx_overflow", "channel_error_mid_frame", "odd_payload_ws16", "slab_allocator", "block_size_minimum", "served_after_fault", "illegal_slip_sequence_on_the_wire"}) v.push_back(s);
+        else for (const char *s : {"earlier_instance_received_line_noise", "frame_released_through_block_free", "frame_of_64k_octets_or_more", "reply_could_not_be_sent", "malloc_failed_underneath_ufw_malloc", "alloc_failure_with_parsable_header", "alloc_failure_without_parsable_header", "empty_frame", "short_frame", "frame_len_room_minus_1", "frame_len_room", "frame_len_room_plus_1", "rx_overflow", "read_at_limit_minus_1", "read_at_limit", "read_at_limit_plus_1", "tx_overflow", "channel_error_mid_frame", "odd_payload_ws16", "slab_allocator", "block_size_minimum", "served_after_fault", "illegal_slip_sequence_on_the_wire"}) v.push_back(s);
         return v;
     }
     Json describe(const std::string &p) const override {
@@ -403,6 +428,7 @@ struct RegpHarness : Harness {
         if (r.chance(1, 3)) { static const int F[] = {0x00, 0xff, 0xff, 0xa5, 0x01}; p["fill"] = F[r.below(5)]; }
         if (r.chance(1, 4)) p["scrub"] = r.chance(1, 2) ? 0xff : 0x00;
         if (r.chance(1, 4)) p["stock_heap"] = 1;
+        if (prop != "C07" && r.chance(1, 5)) { Json pj = Json::arr(); pj.push((long long)r.below(4)); pj.push((long long)r.below(7)); p["prelude"] = pj; }   // another instance received line noise before the scenario
         if (prop == "C09" && r.chance(1, 5)) p["bfree"] = 1;
         if (prop == "C08") { static const int DIRT[] = {0, 0, 0xff, 0xa5, 0x01, 0x80}; p["dirt"] = DIRT[r.below(6)]; }
         if ((prop == "C08" && mt == 16 && r.chance(1, 4)) || (prop == "C06" && mt == 16 && r.chance(1, 10))) p["nomem"] = 1;   // the emitting / serving instance never attaches memory
@@ -686,6 +712,7 @@ struct RegpHarness : Harness {
     // ---- C06
     void exec_c06(const Json &plan, Ctx &c) {
         Cfg cf = cfg_of(plan);
+        earlier_instance(c, plan); if (!c.viol.empty()) return;
         if (cf.block < sizeof(RPFrame) + 41) cf.block = sizeof(RPFrame) + 41;   // receive/transmit boundary cases belong to C09
         Wire c2s, s2c, dummy;
         const bool voidmem = plan.geti("nomem") != 0 && cf.mt == 16;
@@ -911,6 +938,7 @@ struct RegpHarness : Harness {
     // ---- C08
     void exec_c08(const Json &plan, Ctx &c) {
         Cfg cf = cfg_of(plan);
+        earlier_instance(c, plan); if (!c.viol.empty()) return;
         Wire a2b, nil, b2a;
         size_t block = 70000;
         { const Json &ops0 = plan.get("ops"); for (size_t i = 0; i < ops0.size(); ++i) if (ops0.at(i).has("bigpl")) block = 300000; }
@@ -1021,6 +1049,7 @@ struct RegpHarness : Harness {
     // ---- C09
     void exec_c09(const Json &plan, Ctx &c) {
         Cfg cf = cfg_of(plan);
+        earlier_instance(c, plan); if (!c.viol.empty()) return;
         Wire c2s, s2c;
         Node srv(c, &c2s, &s2c, cf.serial, cf.mt, cf.block, cf.slab, cf.so, cf.ko);
         srv.led.recycle = cf.recycle; srv.reconfigure(cf.confhist);
